@@ -14,22 +14,22 @@ SYM = "; recorded macro expansions decided for all inputs by TLC over a symbolic
 CHECKS = {
     "C01": dict(text="Register.tla (Get = Read over Pos; arithmetic twin GetArith checked exhaustively by TLC on model declarations) + every recorded getter call of the real generated code on Q-star (22 bases x boundary widths x boundary positions x types) and seeded DeclGen declarations validated by TLC against RegisterTrace.tla; exhaustive raw tables for 8-bit storage.", technique=TV + SYM, ref="6/C01"),
     "C02": dict(text="Frame/ReadBack/ReceiverSame/WriteBackIdentity checked by TLC on the model declarations; with_ and set_ of every writable contiguous field recorded at (raw, value) pairs with result raw value, storage integer, receiver raw value and read-back, validated step by step.", technique=TV + SYM, ref="6/C02"),
-    "C03": dict(text="Pos(f,i) = first element moved up by i*stride, OOB action = panic + UNCHANGED; arrays of 8 element kinds x K x stride x lo on 8 bases plus seeded arrays: every index and out-of-range indices on getter/with_/set_ recorded and validated.", technique=TV + SYM, ref="6/C03"),
-    "C04": dict(text="Pos concatenates ranges in declaration order; ReadBack needs Inj(Pos) (the property's exclusion); fixed families (bit reversal, byte swap, RISC-V immediates, interleaving arrays) plus seeded lists recorded and validated; exhaustive 8-bit tables.", technique=TV + SYM, ref="6/C04"),
-    "C05": dict(text="Signed fields are bit patterns in the spec; two's-complement decimal checked for N<=16; Frame forbids sign leakage: every iN field of all corpora written with negative/extreme patterns, neighbours observed through raw_value() and the storage integer.", technique=TV + SYM, ref="6/C05"),
+    "C03": dict(text="Pos(f,i) = first element moved up by i*stride, OOB action = panic + UNCHANGED; arrays of 8 element kinds x K x stride x lo on 8 bases plus seeded arrays: every index and out-of-range indices on getter/with_/set_ recorded and validated. Out-of-range probes include indices whose product with the stride wraps (ceil(2^64/stride), 2^63, ..). TLAPS: ElemInj, ElemDisjoint.", technique=TV + SYM, ref="6/C03"),
+    "C04": dict(text="Pos concatenates ranges in declaration order; ReadBack needs Inj(Pos) (the property's exclusion); fixed families (bit reversal, byte swap, RISC-V immediates, interleaving arrays) plus seeded lists recorded and validated; exhaustive 8-bit tables. TLAPS: GatherConcat, ScatterConcat (a list is the concatenation of its ranges).", technique=TV + SYM, ref="6/C04"),
+    "C05": dict(text="Signed fields are bit patterns in the spec; two's-complement decimal checked for N<=16; Frame forbids sign leakage: every iN field of all corpora written with negative/extreme patterns, neighbours observed through raw_value() and the storage integer. TLAPS: SignExtendTruncate.", technique=TV + SYM, ref="6/C05"),
     "C06": dict(text="New/Raw/Zero/Default actions; all 128 base widths with and without defaults (literal/constant, =/:), ZERO, DEFAULT, Default::default(), new(), layout events (size/align vs native integer), Copy; the recorded new_with_raw_value/raw_value/ZERO/DEFAULT bodies are decided for ALL raw values symbolically (Sym.tla).", technique=TV + SYM, ref="6/C06"),
     "C08": dict(text="Present(enum|optenum|nested) = the type's own raw conversion applied to Read; enum/Option<enum>/nested fields of 14 widths at 3 placements, scalar/array/non-contiguous, every variant and non-variant patterns (through aliasing unsigned siblings).", technique=TV + SYM, ref="6/C08"),
-    "C11": dict(text="UpperBitsZero is an invariant of the spec and is evaluated after every recorded event on the raw value AND on the storage integer (transmute); Rewrap action: new_with_raw_value(x.raw_value()) must be indistinguishable through every getter; all arbitrary-int bases of all corpora, random histories; TLC-simulated behaviours replayed on the real objects; layouts and defaults reaching above bit N-1 must be rejected; recorded setter bodies and the raw round trip decided for all inputs (inductive step).", technique=TV + SYM + "; spec->impl behaviour replay", ref="6/C11"),
+    "C11": dict(text="UpperBitsZero is an invariant of the spec and is evaluated after every recorded event on the raw value AND on the storage integer (transmute); Rewrap action: new_with_raw_value(x.raw_value()) must be indistinguishable through every getter; all arbitrary-int bases of all corpora, random histories; TLC-simulated behaviours replayed on the real objects; layouts and defaults reaching above bit N-1 must be rejected; recorded setter bodies and the raw round trip decided for all inputs (inductive step). The verdict family is compiled with a dev-built and a release-built macro.", technique=TV + SYM + "; spec->impl behaviour replay", ref="6/C11"),
     "C12": dict(text="LastWriteWins (shadow register updated bit by bit) and DisjointCommute checked exhaustively by TLC on model declarations with overlapping fields (two slots); random histories on overlapping seeded layouts validated step by step with the shadow register; TLC-simulated behaviours replayed on the real objects with state comparison after every step; TLAPS lemmas LastWriteWinsStep, DisjointCommute.", technique=TV + "; spec->impl behaviour replay; TLAPS lemmas", ref="6/C12"),
     "C13": dict(text="Builder.tla type-state machine (BuildIsFold, DefaultKept, ArgsReadBack checked by TLC); build events of the real builder on Q-bld and seeded valid layouts validated against BuilderOps!BuildFold; the recorded builder chain of every layout is evaluated symbolically (interprocedurally) for ALL argument tuples.", technique=TV + SYM, ref="6/C13"),
-    "C16": dict(text="Register.tla is deterministic and the only panic is OOB; the same drivers are executed under dev (opt 0, overflow checks, debug assertions) and release (opt 3, none); both traces validated and digests compared.", technique=TV + "; two build profiles" + SYM, ref="6/C16"),
+    "C16": dict(text="Register.tla is deterministic and the only panic is OOB; the same drivers are executed under dev (opt 0, overflow checks, debug assertions) and release (opt 3, none); both traces validated and digests compared. Range lists that name a bit twice (accepted by the macro, value outside C04): Register!WithDup takes the implementation's post-state as given; no panic, invariants and digest equality are still demanded (Corpus!QDup, MC config C16d).", technique=TV + "; two build profiles" + SYM, ref="6/C16"),
     "C07": dict(text="BitEnum.tla FromRaw/ToRaw with EnumInverse/ExhaustiveTotal/ErrCarriesRaw checked by TLC on every enumerated enum declaration; recorded new_with_raw_value over ALL raw values (N<=16) and raw_value() of every variant of every accepted enum of the EnumGen space plus seeded sets for every N in 1..64, validated by TLC (EnumTrace.tla).", technique="TLA+ spec + TLC enumeration of enum declarations; trace validation of recorded conversions", ref="6/C07"),
-    "C09": dict(text="Decl!Valid (three-valued Verdict) is the documented rule; TLC enumerates the single-field declaration space exhaustively on small bases (DeclSpace.tla) plus boundary families and seeded near-miss mutations; rustc + the real macro (dev-built and release-built) judge each; verdict events validated by TLC (VerdictTrace.tla), rejections must be located at the declaration.", technique="TLA+ rule + TLC-enumerated programs compiled by the real macro; verdict validation by TLC", ref="6/C09"),
-    "C10": dict(text="BitEnum!EnumValid is the documented rule; TLC enumerates every discriminant set for N<=2 (3 thorough) x exhaustive setting x order plus form/cfg/boundary/count families; verdicts validated by TLC; every accepted enum is then walked over all raw values and variants (no panic, no failure for exhaustive ones).", technique="TLA+ rule + TLC-enumerated enum declarations compiled by the real macro; verdict + trace validation by TLC", ref="6/C10"),
-    "C14": dict(text="Builder.tla type-state machine model-checked; Decl!BuilderSound and the three-valued Decl!ChainVerdict decide: builder() probe and EVERY call chain of length <= m+1 on 21 layouts compiled against the real macro, verdicts validated by TLC.", technique="TLA+ type-state model + exhaustive call-chain enumeration; compile verdicts validated by TLC", ref="6/C14"),
+    "C09": dict(text="Decl!Valid (three-valued Verdict) is the documented rule; TLC enumerates the single-field declaration space exhaustively on small bases (DeclSpace.tla) plus boundary families and seeded near-miss mutations; rustc + the real macro (dev-built and release-built) judge each; verdict events validated by TLC (VerdictTrace.tla), rejections must be located at the declaration. Plus the attribute language: AttrGrammar.tla (three-valued item grammar incl. permuted orders, items split over two attributes, leading-zero literals) and ArgTokens.tla (token-level space; implementation-shaped ArgumentParser model checked by TLC to refine the grammar); every enumerated attribute is judged by the real macro, accepted ones with a defined meaning are traced through their accessors.", technique="TLA+ rule + TLC-enumerated programs compiled by the real macro; verdict validation by TLC", ref="6/C09"),
+    "C10": dict(text="BitEnum!EnumValid is the documented rule; TLC enumerates every discriminant set for N<=2 (3 thorough) x exhaustive setting x order plus form/cfg/boundary/count families; verdicts validated by TLC; every accepted enum is then walked over all raw values and variants (no panic, no failure for exhaustive ones). Surface forms varied: argument order of #[bitenum(..)], discriminant spellings (hex/bin/oct/underscores), inert #[cfg_attr]/#[allow] attributes on variants, one variant name under complementary #[cfg] gates, prelude-like variant names.", technique="TLA+ rule + TLC-enumerated enum declarations compiled by the real macro; verdict + trace validation by TLC", ref="6/C10"),
+    "C14": dict(text="Builder.tla type-state machine model-checked; Decl!BuilderSound and the three-valued Decl!ChainVerdict decide: builder() probe and EVERY call chain of length <= m+1 on 21 layouts compiled against the real macro, verdicts validated by TLC. Layouts whose fields live wholly above bit 16/32/64/96 (the type-state mask is as wide as the base).", technique="TLA+ type-state model + exhaustive call-chain enumeration; compile verdicts validated by TLC", ref="6/C14"),
     "C17": dict(text="Decl!Api/AbsentApi (partition checked by TLC); presence/absence probes for getter/with_/set_ and builder steps of 12 field kinds x 4 access specifiers compiled from another module; absence must be E0599; validated by TLC.", technique="TLA+ API-surface rule; compile probes validated by TLC", ref="6/C17"),
     "C15": dict(text="Decl!Api marks every member but set_ const (checked by TLC); one const item per const member (ZERO, DEFAULT, new, conversions, getters, with_, builder(), steps, build(), enum conversions) must compile; a seeded straight-line program per declaration is evaluated once as const items and once at run time, both recorded as traces and validated against Register.tla.", technique="TLA+ API rule; const-item compile probes + const-vs-runtime trace validation by TLC", ref="6/C15"),
-    "C18": dict(text="The specification supplies the population (TLC-enumerated valid declarations of every feature combination, documented) and the verdict (the regime must not matter: Valid => compiles); the corpus is compiled as a #![no_std] #![deny(missing_docs)] #![forbid(unsafe_code)] library and every expansion dumped by the verif_hooks hook is checked for `unsafe` tokens and foreign path roots; events validated by TLC (VerdictTrace.tla). Thinnest use of the model: a syntactic invariant on recorded expansions plus rustc's verdict.", technique="TLC-enumerated corpus under three crate regimes; recorded macro expansions checked for unsafe/foreign paths", ref="6/C18", category="model_checking"),
+    "C18": dict(text="The specification supplies the population (TLC-enumerated valid declarations of every feature combination, documented) and the verdict (the regime must not matter: Valid => compiles); the corpus is compiled as a #![no_std] #![deny(missing_docs)] #![forbid(unsafe_code)] library and every expansion dumped by the verif_hooks hook is checked for `unsafe` tokens and foreign path roots; events validated by TLC (VerdictTrace.tla). Thinnest use of the model: a syntactic invariant on recorded expansions plus rustc's verdict. Every other unit is compiled next to user modules named core/std/alloc; field docs in every spelling (///, #[doc = ..], #[doc = concat!(..)], /** */).", technique="TLC-enumerated corpus under three crate regimes; recorded macro expansions checked for unsafe/foreign paths", ref="6/C18", category="model_checking"),
     "C19": dict(text="DebugFmt!ComposeLines (standard struct format, PadAdapter rule) over the getter renderings; debug events ({:?}, {:#?}) of Q-dbg and seeded layouts validated; small getter renderings checked against the spec's values.", technique=TV, ref="6/C19"),
 }
 
@@ -48,7 +48,7 @@ m = {
     },
     "engines": [
         {"name": "tlc-register", "path": "spec/", "serves_properties": sorted(CHECKS),
-         "kind_free_text": "explicit TLA+ specification (Decl, Register, Builder, BitEnum, AttrGrammar, MacroModel, Sym) checked by TLC; conformance by "
+         "kind_free_text": "explicit TLA+ specification (Decl, Register, Builder, BitEnum, AttrGrammar, ArgTokens, MacroModel, Sym) checked by TLC; conformance by "
                            "trace validation (impl->spec: RegisterTrace, EnumTrace, VerdictTrace), behaviour replay (spec->impl: SimRegister), "
                            "translation validation of recorded macro expansions (Sym), TLAPS lemmas (RegisterProofs)"},
     ],
